@@ -287,7 +287,7 @@ func (p *vfSrvPeer) ReadClientFinished() error {
 func (p *vfSrvPeer) SendCCS() error {
 	if p.c.out.nextCipher == nil {
 		// keys not established: send a bare ChangeCipherSpec record without switching
-		return vfPeerRawRecord(p.c, recordTypeChangeCipherSpec, []byte{1})
+		return vfPeerBareCCS(p.c)
 	}
 	if err := p.c.writeChangeCipherRecord(); err != nil {
 		return err
@@ -493,7 +493,7 @@ func (p *vfCliPeer) EstablishKeys() error {
 
 func (p *vfCliPeer) SendCCS() error {
 	if p.c.out.nextCipher == nil {
-		return vfPeerRawRecord(p.c, recordTypeChangeCipherSpec, []byte{1})
+		return vfPeerBareCCS(p.c)
 	}
 	if err := p.c.writeChangeCipherRecord(); err != nil {
 		return err
@@ -557,3 +557,25 @@ func vfPeerAlert(c *Conn, level, code byte) error {
 func vfPeerReadAppData(c *Conn) ([]byte, error) {
 	return vfPeerReadApp(c)
 }
+
+// vfPeerBareCCS sends a ChangeCipherSpec record although the peer has no pending cipher state:
+// the current write state is kept (the library's writer would refuse to send it).
+func vfPeerBareCCS(c *Conn) error {
+	c.out.Lock()
+	c.out.nextCipher, c.out.nextMac = c.out.cipher, c.out.mac
+	if c.out.nextCipher == nil {
+		c.out.nextCipher = vfNullCipher{}
+	}
+	_, err := c.writeRecordLocked(recordTypeChangeCipherSpec, []byte{1})
+	if _, ok := c.out.cipher.(vfNullCipher); ok {
+		c.out.cipher = nil
+	}
+	c.out.Unlock()
+	if err == nil {
+		_, err = c.flush()
+	}
+	return err
+}
+
+// vfNullCipher is a placeholder so that changeCipherSpec succeeds on a plaintext connection.
+type vfNullCipher struct{}
